@@ -971,7 +971,17 @@ def _r4(ck: Checker, prog: Program):
     for cname in ("HvsrCurve", "HvsrTraditional", "HvsrAzimuthal"):
         init = prog.cls(cname).methods["__init__"]
         last = init.node.body[-1]
-        if isinstance(last, ast.Expr) and isinstance(last.value, ast.Call) and call_name(last.value) == "update_peaks_bounded" and not last.value.args and not last.value.keywords:
+        full_range = False
+        if isinstance(last, ast.Expr) and isinstance(last.value, ast.Call) and call_name(last.value) == "update_peaks_bounded":
+            # with the defaults, implicit or spelled out
+            upd = prog.cls(cname).find_method("update_peaks_bounded")
+            dflt = upd.defaults() if upd is not None else {}
+            try:
+                given = bind_call(last.value, upd.params, skip_first=True) if upd is not None else None
+            except Exception:
+                given = None
+            full_range = given is not None and all(p_ in dflt and ast.dump(v_) == ast.dump(dflt[p_]) for p_, v_ in given.items())
+        if full_range:
             ck.ok("C08.R4", init.qualname, "constructor evaluates the peaks over the full range", nontrivial=False)
         else:
             ck.violation("C08.R4", init.qualname, "initial peak evaluation", "the constructor does not finish by evaluating the peaks", loc=init.loc())
